@@ -5,6 +5,7 @@ import (
 	"fmt"
 	"os"
 	"path/filepath"
+	"sort"
 	"strings"
 	"testing"
 	"time"
@@ -23,6 +24,8 @@ type c17Op struct {
 	Class string `json:"class,omitempty"` // where the output stops: zero, first-line, flush-1, flush, flush+1, line, site-before, site-inside, site-after, all-but-one, frac
 	Frac  int    `json:"frac,omitempty"`  // per mille, selects among the candidates of the class
 	Code  int    `json:"code,omitempty"`  // run-toolfail: exit status of the tool; run-toolkilled: signal number
+	// Debug: the faulty run is started with -format config -d (other flags than the runs around it)
+	Debug bool `json:"debug,omitempty"`
 }
 
 type c17Case struct {
@@ -34,6 +37,9 @@ type c17Case struct {
 	// OtherTmp: the profiler's TMPDIR lies on another file system than its home directory (a rename from one to the
 	// other fails; whatever the implementation does instead must be as safe)
 	OtherTmp bool `json:"other_tmp,omitempty"`
+	// NameLen > 0: the binary's file name has that many bytes (close to NAME_MAX: names derived from it - cache file,
+	// temporary file - may not fit any more; failing is fine, trusting a partial dump is not)
+	NameLen int `json:"name_len,omitempty"`
 }
 
 var c17Classes = []string{"zero", "first-line", "flush-1", "flush", "flush+1", "line", "site-before", "site-inside", "site-after", "all-but-one", "frac"}
@@ -42,10 +48,13 @@ func drawC17(t *rapid.T) c17Case {
 	c := c17Case{GOARCH: []string{"amd64", "amd64", "386"}[rapid.IntRange(0, 2).Draw(t, "goarch")], ListSeed: rapid.Uint64().Draw(t, "listSeed")}
 	c.Sites = rapid.IntRange(5, 200).Draw(t, "sites")
 	c.OtherTmp = rapid.IntRange(0, 2).Draw(t, "otherTmp") == 0
+	if rapid.IntRange(0, 5).Draw(t, "longName") == 0 {
+		c.NameLen = rapid.IntRange(225, 255).Draw(t, "nameLen")
+	}
 	c.Distinct = rapid.IntRange(3, 60).Draw(t, "distinct")
 	n := rapid.IntRange(1, 4).Draw(t, "nops")
 	for i := 0; i < n; i++ {
-		op := c17Op{Class: c17Classes[rapid.IntRange(0, len(c17Classes)-1).Draw(t, "class")], Frac: rapid.IntRange(0, 999).Draw(t, "frac")}
+		op := c17Op{Class: c17Classes[rapid.IntRange(0, len(c17Classes)-1).Draw(t, "class")], Frac: rapid.IntRange(0, 999).Draw(t, "frac"), Debug: rapid.IntRange(0, 2).Draw(t, "debug") == 0}
 		switch rapid.IntRange(0, 11).Draw(t, "op") {
 		case 10, 11:
 			op.Op = "run-diskfull"
@@ -184,10 +193,22 @@ func checkC17(raw json.RawMessage) (ev.Result, error) {
 		return ev.Result{}, ev.Inconclusivef("%v", err)
 	}
 	// profile of a cold-cache run for the current binary and listing
+	if c.NameLen > 0 {
+		if err := rig.useLongName(c.NameLen); err != nil {
+			return ev.Result{}, ev.Inconclusivef("%v", err)
+		}
+	}
 	cold := func() (string, error) {
 		saved := rig.home
 		rig.freshHome()
 		defer func() { rig.home = saved }()
+		if rig.shortBinary != "" {
+			// the reference profile is taken under the ordinary name of the same file (with the long name even a cold
+			// run may fail, which the statement allows)
+			long := rig.binary
+			rig.binary = rig.shortBinary
+			defer func() { rig.binary = long }()
+		}
 		r, err := rig.run("ok", false)
 		if err != nil {
 			return "", err
@@ -209,9 +230,32 @@ func checkC17(raw json.RawMessage) (ev.Result, error) {
 	if otherTmp {
 		res.Classes = append(res.Classes, "temp-dir-on-another-file-system")
 	}
+	if c.NameLen > 0 {
+		res.Classes = append(res.Classes, "binary-name-close-to-NAME_MAX")
+	}
 	verify := func(what string, r *profRun) error {
 		if r.exit != 0 || r.signaled {
 			res.Classes = append(res.Classes, "run-after-fault-failed-with-error(ok)")
+			return nil
+		}
+		if strings.Contains(what, "with -format config -d") {
+			// another output format than the reference run: compare the allow-lists (the YAML profile read the way the
+			// sandbox command reads it)
+			var got []string
+			if p, err := loadLikeSandbox([]byte(r.stdout)); err == nil {
+				for _, g := range p.Syscalls {
+					got = append(got, g.Names...)
+				}
+			} else {
+				return fmt.Errorf("%s exited 0 but its output does not load as a profile: %v", what, err)
+			}
+			sort.Strings(got)
+			wantNames := append([]string(nil), profileNames(want)...)
+			sort.Strings(wantNames)
+			if fmt.Sprint(got) != fmt.Sprint(wantNames) {
+				return fmt.Errorf("%s exited 0 but its allow-list differs from a cold-cache run for the same binary: %d names instead of %d (stderr %q)\ngot names %v",
+					what, len(got), len(wantNames), clip(r.stderr, 400), clipNames(got))
+			}
 			return nil
 		}
 		if r.stdout != want {
@@ -223,9 +267,15 @@ func checkC17(raw json.RawMessage) (ev.Result, error) {
 	leftBehind := false
 	for i, op := range c.Ops {
 		desc := fmt.Sprintf("step %d (%s %s/%d)", i, op.Op, op.Class, op.Frac)
+		var dbg []string
+		if op.Debug && (op.Op == "run-ok" || op.Op == "run-crash" || op.Op == "run-toolfail" || op.Op == "run-toolkilled" || op.Op == "run-toolmissing" || op.Op == "run-diskfull") {
+			dbg = []string{"-format", "config", "-d"}
+			desc += " with -format config -d"
+			res.Classes = append(res.Classes, "faulty-run-with-debug-flag")
+		}
 		switch op.Op {
 		case "run-ok":
-			r, err := rig.run("ok", false)
+			r, err := rig.run("ok", false, dbg...)
 			if err != nil {
 				return res, ev.Inconclusivef("%v", err)
 			}
@@ -234,7 +284,7 @@ func checkC17(raw json.RawMessage) (ev.Result, error) {
 			}
 		case "run-crash":
 			n := stopAt(text, op.Class, op.Frac)
-			if _, err := rig.run(fmt.Sprintf("block:%d", n), true); err != nil {
+			if _, err := rig.run(fmt.Sprintf("block:%d", n), true, dbg...); err != nil {
 				return res, ev.Inconclusivef("%v", err)
 			}
 			res.Classes = append(res.Classes, "crash:"+op.Class)
@@ -249,7 +299,7 @@ func checkC17(raw json.RawMessage) (ev.Result, error) {
 			}
 		case "run-toolfail":
 			n := stopAt(text, op.Class, op.Frac)
-			r, err := rig.run(fmt.Sprintf("exit:%d:%d", n, op.Code), false)
+			r, err := rig.run(fmt.Sprintf("exit:%d:%d", n, op.Code), false, dbg...)
 			if err != nil {
 				return res, ev.Inconclusivef("%v", err)
 			}
@@ -267,7 +317,7 @@ func checkC17(raw json.RawMessage) (ev.Result, error) {
 			}
 		case "run-toolkilled":
 			n := stopAt(text, op.Class, op.Frac)
-			r, err := rig.run(fmt.Sprintf("kill:%d:%d", n, op.Code), false)
+			r, err := rig.run(fmt.Sprintf("kill:%d:%d", n, op.Code), false, dbg...)
 			if err != nil {
 				return res, ev.Inconclusivef("%v", err)
 			}
@@ -335,9 +385,14 @@ func checkC17(raw json.RawMessage) (ev.Result, error) {
 				n = 4096
 			}
 			if err := rig.resizeCache(n); err != nil {
-				return res, ev.Inconclusivef("remount: %v", err)
+				// a tmpfs cannot be made smaller than what it holds: start from an empty cache then
+				rig.clearCache()
+				if err := rig.resizeCache(n); err != nil {
+					res.Classes = append(res.Classes, "diskfull-not-available")
+					break
+				}
 			}
-			r, err := rig.run("ok", false)
+			r, err := rig.run("ok", false, dbg...)
 			rig.resizeCache(64 << 20)
 			if err != nil {
 				return res, ev.Inconclusivef("%v", err)
@@ -347,7 +402,7 @@ func checkC17(raw json.RawMessage) (ev.Result, error) {
 				return res, err
 			}
 		case "run-toolmissing":
-			r, err := rig.run("", false)
+			r, err := rig.run("", false, dbg...)
 			if err != nil {
 				return res, ev.Inconclusivef("%v", err)
 			}
